@@ -247,7 +247,7 @@ def plan(prop, tier, seed):
             legs.append(lambda: lab_leg("LabPL", 1 if q else 2, 8 if q else 16, REALISTIC, seed))
             legs.append(lambda: lab_leg("LabPL", 2, 16, DECIMAL, seed, overrides=dict(DEC_OVR, Fracs="PL_FracsQuick", TUnits="QuickUnits"), tag="q2") if q
                         else lab_leg("LabPL", 2, 16, DECIMAL, seed, overrides=DEC_OVR, tag="dec"))
-    if prop in ("C01", "C02", "C03", "C10", "C11", "C17"):
+    if prop in ("C01", "C02", "C03", "C10", "C11", "C12", "C17"):
         legs.append(lambda: obs_leg(8 if q else 16, 40 if q else 250, 40 if q else 60, REALISTIC, seed))
         if not q:
             legs.append(lambda: obs_leg(16, 250, 60, DECIMAL, seed + 7, tag="dec"))
